@@ -8,7 +8,19 @@ The control-flow operators touch the enclosing function's variables ONLY through
 Installed on the ag__ module of a FRESH transpiler instance (api.PyToPy subclass): the generated code is the
 repository's, only the operator implementations differ.
 """
-ITER_CAP = 40
+ITER_CAP = 40          # iterations of one loop instance
+TOTAL_CAP = 4000       # loop iterations of one run of the converted function (speculative runs nest multiplicatively)
+_budget = [0]
+
+
+def reset_budget():
+    _budget[0] = 0
+
+
+def _tick():
+    _budget[0] += 1
+    if _budget[0] > TOTAL_CAP:
+        raise BackendDiverged()
 
 
 class BackendDiverged(Exception):
@@ -72,14 +84,25 @@ def while_stmt(test, body, get_state, set_state, symbol_names, opts):
         body()
         s = get_state()
         n += 1
+        _tick()
         if n > ITER_CAP:
             raise BackendDiverged()
     set_state(s)
 
 
+def _bounded(iter_):
+    """The items of a (speculatively huge) iterable, capped: a range(10**12) met in an untaken branch must not be materialised."""
+    items = []
+    for it in iter_:
+        items.append(it)
+        if len(items) > ITER_CAP:
+            raise BackendDiverged()
+    return items
+
+
 def for_stmt(iter_, extra_test, body, get_state, set_state, symbol_names, opts):
     s = get_state()
-    items = list(iter_)
+    items = _bounded(iter_)
     _quiet(lambda: body(items[0] if items else 0))
     set_state(s)
     if extra_test is not None:
@@ -90,4 +113,5 @@ def for_stmt(iter_, extra_test, body, get_state, set_state, symbol_names, opts):
             break
         body(it)
         s = get_state()
+        _tick()
     set_state(s)
